@@ -525,9 +525,11 @@ def resolveSer (w : World) (e : Entry) : Option Ser :=
 
 /-- `_verify_is_fast_serializable`: a referenced FastSerializable class that resolves to the placeholder
     gets its serializer generated now -/
-def needsSer (w : World) (b : ClassId) : Bool :=
+def needsSer (cfg : Config) (w : World) (b : ClassId) : Bool :=
   match alookup b w.classes with
-  | some eb => eb.core.src.fast && (resolveSer w eb).isNone
+  | some eb => eb.core.src.fast &&
+      (if cfg.serializerViaMro then (resolveSer w eb).isNone      -- `getattr(B, "serialize")`: through the MRO
+       else eb.serializer.isNone)                                 -- `"serialize" not in B.__dict__`
   | none => false
 
 /-- `getattr(B, "serialize") is not FastSerializable.serialize` for a defined FastSerializable class `B` -/
@@ -547,14 +549,15 @@ def setSer (w : World) (t : ClassId) (s : Ser) : World :=
     definition) — it is generated now, with default flags, if `B` resolves to the placeholder — OR when `B`
     already resolves to a generated serializer, its own or an INHERITED one (then `B` itself is not looked
     at).  Returns the world after the nested generations and whether the walk got through. -/
-def verifyFields (rec : World → ClassId → World) : World → List FieldSpec → World × Bool
+def verifyFields (cfg : Config) (rec : World → ClassId → World) : World → List FieldSpec → World × Bool
   | w, [] => (w, true)
   | w, f :: fs =>
     match f.kind with
     | .ref b =>
-      if f.fastOk || resolvesNow w b then verifyFields rec (if needsSer w b then rec w b else w) fs
+      if f.fastOk || (cfg.serializerViaMro && resolvesNow w b) then
+        verifyFields cfg rec (if needsSer cfg w b then rec w b else w) fs
       else (w, false)
-    | _ => if f.fastOk then verifyFields rec w fs else (w, false)
+    | _ => if f.fastOk then verifyFields cfg rec w fs else (w, false)
 
 /-- `create_serializer(cls, **flags)`: resolves the mapper first (cache fills, referenced classes included),
     walks the fields (`verifyFields`), and when the walk gets through writes `serialize` (keys mapped now,
@@ -565,12 +568,12 @@ def createW (cfg : Config) : Nat → World → ClassId → SerFlags → World ×
     match alookup c w.classes with
     | none => (w, false)
     | some e =>
-      if (verifyFields (fun w b => (createW cfg n w b .plain).1) (fillMapper cfg w c e) e.core.fields).2 then
-        (setSer (verifyFields (fun w b => (createW cfg n w b .plain).1) (fillMapper cfg w c e) e.core.fields).1
+      if (verifyFields cfg (fun w b => (createW cfg n w b .plain).1) (fillMapper cfg w c e) e.core.fields).2 then
+        (setSer (verifyFields cfg (fun w b => (createW cfg n w b .plain).1) (fillMapper cfg w c e) e.core.fields).1
           (installTarget cfg c e)
-          ⟨fastKeysNow cfg (verifyFields (fun w b => (createW cfg n w b .plain).1) (fillMapper cfg w c e) e.core.fields).1 c e, fl⟩,
+          ⟨fastKeysNow cfg (verifyFields cfg (fun w b => (createW cfg n w b .plain).1) (fillMapper cfg w c e) e.core.fields).1 c e, fl⟩,
          true)
-      else ((verifyFields (fun w b => (createW cfg n w b .plain).1) (fillMapper cfg w c e) e.core.fields).1, false)
+      else ((verifyFields cfg (fun w b => (createW cfg n w b .plain).1) (fillMapper cfg w c e) e.core.fields).1, false)
 termination_by structural n => n
 
 def installW (cfg : Config) (w : World) (c : ClassId) (fl : SerFlags := .plain) : World :=
@@ -727,10 +730,11 @@ instance (W : List (String × TypeId)) : Decidable (NoClashW W) := by unfold NoC
 def hasRef (e : Entry) : Bool :=
   e.core.fields.any fun f => match f.kind with | .ref _ => true | .refs _ => true | _ => false
 
-/-- every class the fields of `e` refer to (directly or through `Array[...]`) is a FastSerializable class whose
-    own serializer can be generated (`fieldFast`, resolved at definition) -/
-def refsCreatable (e : Entry) : Bool :=
-  e.core.fields.all fun f => match f.kind with | .ref _ => f.fastOk | _ => true
+/-- outside the region of the MRO finding: the code does not decide through the MRO (`cfg.serializerViaMro` off —
+    the case once /repo has the repair), or every class the fields of `e` refer to (directly or through `Array[...]`)
+    is a FastSerializable class whose own serializer can be generated (`fieldFast`, resolved at definition) -/
+def refsCreatable (cfg : Config) (e : Entry) : Bool :=
+  !cfg.serializerViaMro || e.core.fields.all fun f => match f.kind with | .ref _ => f.fastOk | _ => true
 
 /-- a step is quiet when (1) `structure_to_schema` does not change `cls._required` (and, because the model does
     not follow ClassReference fields into the referenced classes' `_required`, is not applied to a class with such
@@ -743,11 +747,11 @@ def quietStep (cfg : Config) (w : World) : WorldOp → Bool
   | .define c src =>       -- known finding (mro-resolved-serialize-skips-generation): a FastSerializable class may refer only
                            -- to FastSerializable classes whose serializer can be generated
     (match alookup c (defineW cfg w c src).1.classes with
-     | some e => !e.core.src.fast || refsCreatable e
+     | some e => !e.core.src.fast || refsCreatable cfg e
      | none => true)
   | .createSerializer c _ =>
     (match alookup c w.classes with
-     | some e => refsCreatable e
+     | some e => refsCreatable cfg e
      | none => true)
   | .toSchema c => !cfg.schemaWritesRequired ||
     (match alookup c w.classes with
